@@ -23,7 +23,9 @@ RULE = ("the delivery scripts of C06's proved space (coherent operation sets inj
         "kv.DB nodes, with 1-3 subscribers per node registered through DB.OnChange / NewObservable("
         "IgnoreHostLeaseholder).OnChange before the traffic, in the middle of it and after restarts; every subscriber's "
         "callbacks are collected after every step (FIFO marker barrier through splitter, relay and the async observer, "
-        "no sleeps). Extra phase: two creators of one key (the known lease-path finding) where the only allowed code is "
+        "no sleeps). 14% of the scripts stall one subscriber (its handler blocks, 66-90 forwarded requests overflow its "
+        "64-slot buffer) next to subscribers that keep up and continue with 4-7 accepted batches on that node: the others "
+        "must still be handed every change. Extra phase: two creators of one key (the known lease-path finding) where the only allowed code is "
         "'same (key, version, leaseholder) handed twice'. Non-trivial = some subscriber was handed >= 2 batches, a "
         "redelivery was rejected while it was registered, a filtered and an unfiltered subscriber of one node differ, "
         "and some subscriber joined after the first change; distinct by hash.")
@@ -40,7 +42,7 @@ ALLOWED = {"G13": {4}}
 
 
 # --------------------------------------------------------------------------- generator
-def add_subs(rng, c, allow_recover_only_without_subs=True):
+def add_subs(rng, c, stall=False):
     nodes = c["nodes"]
     ops = []
     subs = {n: set() for n in nodes}
@@ -74,6 +76,27 @@ def add_subs(rng, c, allow_recover_only_without_subs=True):
             ops.append(sub(rng.choice(nodes)))
         elif rng.random() < 0.03:
             ops.append({"op": "sub", "n": rng.choice(nodes), "s": 0, "filter": True})   # duplicate id: ignored
+    if stall and any(subs.values()):
+        # one subscriber stops keeping up (its handler blocks, > 64 forwarded requests pile up for it)
+        # next to subscribers that keep up; traffic goes on: the others must still be handed everything
+        n = rng.choice([m for m in nodes if subs[m]])
+        victim = sub(n)
+        pos = rng.randrange(0, len(ops) + 1)
+        tail = ops[pos:]
+        if any(o["op"] == "restart" and o.get("n") == n for o in tail):
+            tail = [o for o in tail if not (o["op"] == "restart" and o.get("n") == n)]
+        ops = ops[:pos] + [victim, {"op": "stall", "n": n, "s": victim["s"], "count": rng.choice([66, 70, 90])}] + tail
+        other = rng.choice([m for m in nodes if m != n] + [9])
+        for i in range(rng.randrange(4, 8)):
+            ops.append({"op": "inject", "n": n, "sender": other,
+                        "batch": [{"k": rng.choice(K.XKEYS), "ver": 100 + i, "lh": 7, "del": rng.random() < 0.2, "v": rng.randrange(1, 90)}]})
+            if rng.random() < 0.3:
+                ops.append(sub(n))
+        for b in ops:
+            if b["op"] == "inject":
+                for it in b["batch"]:
+                    if it["del"]:
+                        it["v"] = 0
     c = dict(c)
     c["ops"] = ops
     return c
@@ -95,7 +118,7 @@ def gen_case(rng):
     else:
         c = K.gen_D(rng)
     fam = c["fam"]
-    c = add_subs(rng, c)
+    c = add_subs(rng, c, stall=rng.random() < 0.14)
     c["fam"] = fam
     return c
 
@@ -184,6 +207,8 @@ def nontrivial(case, r):
 
 def histogram(case, r):
     ks = K.histogram(case, r)
+    if r.get("missed"):
+        ks.append("keeping_up_subscriber_missed_a_marker")
     ks.append("subscribers=%d" % sum(1 for o in case["ops"] if o["op"] == "sub"))
     ks.append("filtered_subscribers=%d" % sum(1 for o in case["ops"] if o["op"] == "sub" and o.get("filter")))
     outs = r.get("outs") or []
